@@ -1,7 +1,7 @@
 /-
   C36 driver (accept mode): `op<TAB>trace` → `ok` iff the trace of the REAL mux equals the model's.
 
-  op    : mux [cls=flood] steps=<tok,…>      (cls=flood: the script blocks the mux loop — known finding)
+  op    : mux [cls=flood] steps=<tok,…>      (cls=flood: regression family of the fixed blocked-loop finding)
           p<hex>      the peer sends this raw packet
           o           application: OpenChannel("x")            (call id = step index)
           g1 | g0     application: SendRequest("req", wantReply)
@@ -100,8 +100,8 @@ def handle (line : String) : String :=
       | .error e => e
       | .ok (want, stuck) =>
         let w := "|".intercalate want
-        let flood := o.get? "cls" == some "flood"
-        if stuck != flood then "bad-op:class-flood"
+        -- (cls=flood marks the regression family of the former blocked-loop finding; the model never blocks now)
+        if stuck then "reject:model-blocks"
         else if (tr.splitOn "panic").length > 1 then "violation:mux_total (panic)"
         else if tr == "hang" || (tr.splitOn "|hang").length > 1 then "violation:hang"
         else if tr != w then s!"reject:want={w}"
